@@ -101,6 +101,20 @@ def run(ck, w):
         order_after_success(ck, o, cf, heads, [bb for bb, j, s in band_aggs], "write_json(BANDHEAD)", "construct Band")
 
     bk = w.body(BACKUP)
+    o = ck.ob("C03.1d", "Band::create_with_flags: the BANDHEAD is written last - after the band directory AND its index directory exist "
+                        "(a band that has a head can always be listed)")
+    cwf = w.body("band::Band::create_with_flags")
+    heads_ = events_of(lib, cwf, "jsonio::write_json")
+    mkdirs_ = events_of(lib, cwf, "transport::Transport::create_dir")
+    if not heads_ or len(mkdirs_) < 2:
+        ck.fail(o, cwf.name, "anchor-missing", "write_json events=%d create_dir events=%d" % (len(heads_), len(mkdirs_)))
+    else:
+        late = [m for m in mkdirs_ if any(cwf.reaches(h.bb, m.bb) for h in heads_)]
+        if late:
+            ck.fail(o, cwf.name, "directory created after the head was written",
+                    "a create_dir can run after BANDHEAD exists: a kill in between leaves a headed band without its index directory", late[0].site())
+        else:
+            rules.order_after_success(ck, o, cwf, mkdirs_, [h.bb for h in heads_], "create_dir", "write_json(BANDHEAD)")
     o = ck.ob("C03.1b", "in backup(): every archive write other than Band::create happens after Band::create succeeded")
     creates = events_of(lib, bk, CREATE)
     writers = []
@@ -260,6 +274,7 @@ def run(ck, w):
     order_after_success(ck, o, fin, events_of(lib, fin, "backup::BackupWriter::flush_group"), closes, "flush_group", "Band::close")
     o = ck.ob("C03.4b", "BackupWriter::finish: IndexWriter::finish succeeded before Band::close")
     order_after_success(ck, o, fin, events_of(lib, fin, "index::write::IndexWriter::finish"), closes, "IndexWriter::finish", "Band::close")
+    common.finish_only_when_exhausted(ck, w, "C03.4g")
     iwf = w.body("index::write::IndexWriter::finish")
     o = ck.ob("C03.4c", "IndexWriter::finish: the last hunk is written (finish_hunk ok) before it reports the count")
     rets = [bb for bb, j, s in rules.agg_sites(iwf, "std::result::Result", "Ok") if s["pl"]["l"] == 0]
